@@ -42,12 +42,12 @@ CLAIMED = {
          "§5 C07", "Lean 4 proof (lock-order theorem + verified trace checker, partial) + exploration of re-entrant and concurrent scenarios with lock-order certificates"),
  "C03": ("Theorems Rx.Comb.merge_spec, amb_spec, concat_spec, zip_spec/zip_items/zip_timing, take_until_spec, skip_until_spec, sample_spec, flat_map_spec, "
          "ready_set_go_no_loss: the pure history machine of each combining operator (mirroring its closures and the StreamController) equals its ReactiveX "
-         "list characterisation for ALL well-formed histories and any number of sources (sequence_equal_spec since the repair of F10). combine_latest is proved NOT "
-         "to be the ReactiveX operator (combine_latest_violated, with a partial theorem) - recorded as known finding F9. "
+         "list characterisation for ALL well-formed histories and any number of sources (combine_latest_spec and sequence_equal_spec since the repairs of the "
+         "former findings F9 / F10). "
          "REFINEMENT (C03Ref*.lean): the object machine's merge, amb, concat, take_until and zip (the call-by-call transliteration of the Rust operators over "
          "the StreamController and plain Subjects) refine their history machines for EVERY history (merge_refines, amb_refines, concat_refines, "
-         "take_until_refines, zip_refines: log, status, registrations per subject), so the list specs hold of the machine (…_machine_spec); skip_until, "
-         "sample, flat_map, switch_on_next: differential check only. "
+         "take_until_refines, zip_refines, skip_until_refines, sample_refines, flat_map_refines, switch_on_next_refines, combine_latest_refines: log, status, "
+         "registrations per subject), so the list specs hold of the machine (…_machine_spec); sequence_equal (a tree of controllers): differential check only. "
          "Tie: on every hot-source history the check compares implementation = history machine = spec, and implementation = object machine on all cases.",
          "§5 C03", "Lean 4 proof: history machines = list specs by induction + per-run three-way differential correspondence"),
  "C06": ("Theorems Rx.C06.*: (kernel layer) every single-source kernel that ends its downstream while being fed has cancelled its upstream, for all inputs; "
